@@ -25,8 +25,8 @@
 //! `==` is judged by the model: equal iff the two REMAINING value sequences are equal (vek: "Debug, PartialEq and
 //! Hash only consider the elements that weren't yielded"), and by the ledger: no read of a yielded element.
 
-use crate::ledger::{self, Ctx, Obs, St, Tracked};
-use crate::observers::{check_fmt, hash_view, DEBUG_SPECS, N_SINKS, SINK_NAMES};
+use crate::ledger::{self, Ctx, St, Tracked};
+use crate::observers::{check_debug, hash_view, DEBUG_SPECS, N_SINKS, SINK_NAMES};
 use crate::shapes::VecOps;
 use crate::{explain, Guard};
 use std::fmt::Debug;
@@ -1017,17 +1017,17 @@ pub fn run_ext<V: VecOps<N>, const N: usize>(setup: &Setup, steps: &[Step], fin:
                         for (which, g, m) in [("first", &it, &m_it), ("second", &ot, &m_ot)] {
                             let ids: Vec<u32> = m.q.iter().map(|x| x.id).collect();
                             let vals: Vec<u32> = m.q.iter().map(|x| x.val).collect();
-                            ledger::with_ctx(Ctx::IterDebug, || check_fmt(cx, Obs::Debug, sp, sink, &***g as &dyn Debug, &ids, &vals, true, &|| format!("{} ({} iterator)", here(), which)))?;
+                            ledger::with_ctx(Ctx::IterDebug, || check_debug(cx, sp, sink, &**g as &dyn Debug, &ids, &vals, true, &|| format!("{} ({} iterator)", here(), which)))?;
                         }
                         pair_obs_moved |= moved;
                     }
                     OOp::Hash => {
                         let r = vkit::catch(|| {
                             ledger::with_ctx(Ctx::IterHash, || {
-                                let (h1, h2) = (hash_view(&**it), hash_view(&**ot));
+                                let (h1, h2) = (hash_view(&*it), hash_view(&*ot));
                                 let mut set: std::collections::HashSet<&V::It, std::hash::BuildHasherDefault<std::collections::hash_map::DefaultHasher>> = Default::default();
-                                set.insert(&**it);
-                                set.insert(&**ot);
+                                set.insert(&*it);
+                                set.insert(&*ot);
                                 (h1, h2, set.len())
                             })
                         });
@@ -1046,7 +1046,7 @@ pub fn run_ext<V: VecOps<N>, const N: usize>(setup: &Setup, steps: &[Step], fin:
                     OOp::Eq => {
                         let r = vkit::catch(|| {
                             ledger::with_ctx(Ctx::IterEq, || {
-                                let (a, b): (&V::It, &V::It) = (&**it, &**ot);
+                                let (a, b): (&V::It, &V::It) = (&*it, &*ot);
                                 // the same question through references, Option, arrays, tuples and the trait methods by name
                                 let forms = [a == b, !(a != b), Some(a) == Some(b), !(Some(a) != Some(b)), [a] == [b], !([a] != [b]), (a, 1u8) == (b, 1u8), !((a, 1u8) != (b, 1u8)), PartialEq::eq(a, b), !PartialEq::ne(a, b), [a, a] == [b, b], !((b, a) != (a, b))];
                                 ((*a == *b, *a != *b, *b == *a, *b != *a), forms)
